@@ -74,10 +74,11 @@ CLAIMED = {
              'form, SE>=0, scaling all counts by k scales SE by |k| (bilinearity of the form, placement commutes with scaling), mapping order '
              'does not matter (distinct keys), an out-of-basis descriptor is an error; for all count vectors, matrices and temperatures. '
              'Tie: correspondence over exact rationals per library (basis and matrix exported from the loaded library) and a direct oracle on '
-             'unit vectors, random, scaled, permuted and out-of-basis mappings for shipped and synthetic libraries.',
+             'unit vectors, random, scaled, permuted and out-of-basis mappings for shipped and synthetic libraries. For the shipped libraries the '
+             'hypothesis x\'Mx >= 0 is discharged: C20_shipped_se_square_nonneg (every mapping over the basis, every RMSE value) from the '
+             'kernel-checked positive-semi-definiteness certificates of the regenerated matrices (C14).',
         design='5 / C20',
-        note=TB + 'Axioms: standard-library real-number axioms as printed. sqrt and the RMSE correlation are taken from the implementation; '
-             'PSD of the shipped matrices belongs to C14.',
+        note=TB + 'Axioms: standard-library real-number axioms as printed. sqrt and the RMSE correlation are taken from the implementation.',
         technique='Coq proofs over R (bilinear form, permutation of placements) + vm_compute correspondence + oracle'),
     'C10': dict(
         text='Machine-checked proof (Coq): (i) finite theorems over the unit and prefix tables REGENERATED from /repo on every run - every '
@@ -214,12 +215,18 @@ CLAIMED = {
              'the Coq reader, remaps well-formed and chain-free); the data-directory cache never changes its answer once given, the override wins, '
              'failures are not cached, builtin names resolve to the same relative path under any data directory, path-like names are taken as paths. '
              'Exhaustive on the implementation on every run: nine libraries x three ways of locating them (fresh process each) with identical '
-             'content fingerprints, every group evaluated at range ends / midpoint / T_ref / every knot, every pattern compiled, uncertainty blocks '
-             'square, symmetric, sized to the basis, basis entries with data, and positive semi-definite (numerically).',
+             'content fingerprints (plus relative paths, symlinked directories, a directory relocated alone, a second load after an overwriting '
+             'merge), every group evaluated at range ends / midpoint / T_ref / every knot, every pattern compiled, basis entries with data. '
+             'UNCERTAINTY MATRICES: regenerated from the data files on every run as exact integer matrices (every entry is an IEEE double = integer / '
+             '2^scale; tie: entry-for-entry equality with the matrix the loaded library object holds) and proved square, symmetric and POSITIVE '
+             'SEMI-DEFINITE for every real vector by a certificate the kernel checks on every run (C14_uq_certificates, C14_uq_psd via '
+             'C14_certificate_sound: M = L L^T + D with D symmetric, diagonally dominant; the factor L is untrusted input computed by the '
+             'translator). PARTIAL only in that library YAML contents other than the matrices are not translated and the file system is runtime.',
         design='5 / C14',
-        note=TB + 'Closed under the global context. PSD is a numerical eigenvalue check, not the checked-certificate theorem of DESIGN; library '
-             'YAML contents are not translated into Gallina; the file system is runtime.',
-        technique='Coq finite theorems + cache state-machine proofs + exhaustive three-way load audit'),
+        note=TB + 'Axioms: standard-library real-number axioms as printed for the PSD theorems (they quantify over real vectors); the scheme and '
+             'cache theorems are closed under the global context. Translator tools/gen.py (uq) is trusted to read the matrix (checked against '
+             'the loaded library on every run); the certificate factor is NOT trusted.',
+        technique='Coq finite theorems + kernel-checked PSD certificates on regenerated matrices + cache state-machine proofs + exhaustive load audit'),
     'C16': dict(
         text='Machine-checked proof (Coq): for every rule, molecule and match - no edit sequence adds, removes or transmutes an atom (atoms '
              'of every element are conserved), atoms that are not images of labelled atoms are untouched, one product graph per match; every rule that the '
